@@ -7,7 +7,7 @@ out=seeded/BENIGN.md
 for d in seeded/benign/*/; do
   d=${d%/}
   res=$(tools/run_benign.sh /verif/$d C01 C02 C03 C04 C05 C06 C07 C08 C09 C10 C11 C12 C13 C14 C15 C16 C17 C18 C19 C20 2>&1 | head -1)
-  bad=$(echo "$res" | tr ' ' '\n' | grep -v "exit=0" | grep "exit=" | tr '\n' ' ')
+  bad=$(echo "$res" | grep -o "C[0-9][0-9] exit=[1-9][0-9]*" | tr '\n' ';')
   what=$(head -c 140 $d/what.txt | tr '\n|' '  ')
   echo "| $d | $what | ${bad:-none} |" >> $out
   echo "$d: ${bad:-all 0}"
